@@ -473,8 +473,8 @@ fn explore(ctx: &Ctx, sc: &Scn, rank_base: u64) -> Stats {
             ex = execute(sc, &prefix);
         }
         if let Some(m) = &ex.machinery {
-            eprintln!("MACHINERY: {m}; scenario {sc:?} schedule {prefix:?}");
-            std::process::exit(2);
+            ctx.machinery(format!("{m}; scenario {sc:?} schedule {prefix:?}"));
+            return st;
         }
         st.executions += 1;
         st.points += ex.points.len() as u64;
@@ -503,8 +503,8 @@ fn explore(ctx: &Ctx, sc: &Scn, rank_base: u64) -> Stats {
                 again = execute(sc, &full);
             }
             if again.machinery.is_some() || again.result != ex.result || again.violations.len() != ex.violations.len() {
-                eprintln!("MACHINERY: a violating schedule did not reproduce: {sc:?} {full:?}: {:?} vs {:?}", ex.violations, again.violations);
-                std::process::exit(2);
+                ctx.machinery(format!("a violating schedule did not reproduce: {sc:?} {full:?}: {:?} vs {:?}", ex.violations, again.violations));
+                return st;
             }
             for (sig, what) in &ex.violations {
                 ctx.violation(format!("C17:{sig}"), what.clone(), json!({"engine": "c17", "scenario": sc, "schedule": full}), rank_base + full.len() as u64);
@@ -752,6 +752,7 @@ pub fn c17(ctx: &Ctx) -> Report {
             };
             match v["t"].as_str() {
                 Some("v") => ctx.violation_n(v["sig"].as_str().unwrap().to_string(), v["what"].as_str().unwrap().to_string(), v["case"].clone(), v["rank"].as_u64().unwrap_or(0), v["n"].as_u64().unwrap_or(1)),
+                Some("m") => ctx.machinery(v["msg"].as_str().unwrap_or("").to_string()),
                 Some("done") => {
                     done = true;
                     execs += v["executions"].as_u64().unwrap();
@@ -839,6 +840,9 @@ pub fn worker(args: &[String]) -> i32 {
     }
     for (v, n) in ctx.drain_violations() {
         println!("{}", json!({"t": "v", "sig": v.signature, "what": v.what, "case": v.replay, "rank": v.rank, "n": n}));
+    }
+    for m in ctx.machinery.lock().unwrap().iter() {
+        println!("{}", json!({"t": "m", "msg": m}));
     }
     println!("{}", json!({"t": "done", "executions": execs, "points": points, "retried": retried, "outcomes": outcomes}));
     0
